@@ -317,6 +317,25 @@ def fromVolume (E : Env) (path : Str) (u : SUnit) : R (SUnit × Str) := do
 /-! ### .network -/
 def supportedNetwork : List Str := Gen.SUPPORTED_NETWORK_KEYS
 
+/-- the `--subnet` / `--gateway` / `--ip-range` groups: the i-th gateway and range belong to the i-th subnet -/
+def networkSubnets (u : SUnit) (sec : Str) : R (List Str) :=
+  let subnets := lookupAll u sec (s "Subnet")
+  let gateways := lookupAll u sec (s "Gateway")
+  let ranges := lookupAll u sec (s "IPRange")
+  if !subnets.isEmpty then do
+      if gateways.length > subnets.length then throw (Err.subnet (s "gateways"))
+      if ranges.length > subnets.length then throw (Err.subnet (s "ranges"))
+      pure ((subnets.zipIdx).flatMap fun (sn, i) =>
+        [s "--subnet", sn] ++ (match gateways[i]? with | some g => [s "--gateway", g] | none => [])
+          ++ (match ranges[i]? with | some r => [s "--ip-range", r] | none => []))
+    else if !gateways.isEmpty || !ranges.isEmpty then throw (Err.subnet (s "without subnet"))
+    else pure []
+
+/-- the podman name of the network: NetworkName=, else systemd-<file stem> -/
+def networkNameOf (path : Str) (u : SUnit) : Str :=
+  let nn := (lookup u (s "Network") (s "NetworkName")).getD []
+  if nn.isEmpty then s "systemd-" ++ fileStem (fileName path) else nn
+
 def fromNetwork (E : Env) (path : Str) (u : SUnit) : R (SUnit × Str) := do
   let sec := s "Network"
   let svc := startService path u
@@ -324,24 +343,13 @@ def fromNetwork (E : Env) (path : Str) (u : SUnit) : R (SUnit × Str) := do
   checkUnknown u (s "Quadlet") supportedQuadlet
   let svc := renameSection svc sec (s "X-Network")
   let svc := renameSection svc (s "Quadlet") (s "X-Quadlet")
-  let nn := (lookup u sec (s "NetworkName")).getD []
-  let netName := if nn.isEmpty then s "systemd-" ++ fileStem (fileName path) else nn
+  let netName := networkNameOf path u
   let svc := addS svc "Unit" "RequiresMountsFor" (s "%t/containers")
   let cmd0 := baseCmd E u sec ++ [s "network", s "create", s "--ignore"]
     ++ addBool u sec Gen.tbl_from_network_unit_bool_keys
     ++ addString u sec Gen.tbl_from_network_unit_string_keys
     ++ addAllStrings u sec Gen.tbl_from_network_unit_inline_lookup_and_add_all_strings
-  let subnets := lookupAll u sec (s "Subnet")
-  let gateways := lookupAll u sec (s "Gateway")
-  let ranges := lookupAll u sec (s "IPRange")
-  let subArgs ← (if !subnets.isEmpty then do
-      if gateways.length > subnets.length then throw (Err.subnet (s "gateways"))
-      if ranges.length > subnets.length then throw (Err.subnet (s "ranges"))
-      pure ((subnets.zipIdx).flatMap fun (sn, i) =>
-        [s "--subnet", sn] ++ (match gateways[i]? with | some g => [s "--gateway", g] | none => [])
-          ++ (match ranges[i]? with | some r => [s "--ip-range", r] | none => []))
-    else if !gateways.isEmpty || !ranges.isEmpty then throw (Err.subnet (s "without subnet"))
-    else pure [] : R (List Str))
+  let subArgs ← networkSubnets u sec
   let cmd := cmd0 ++ subArgs ++ addKeys "--opt" (lookupAllKeyVal u sec (s "Options"))
     ++ addKeys "--label" (lookupAllKeyVal u sec (s "Label")) ++ podmanArgs u sec ++ [netName]
   let svc ← addRawExec svc "ExecStart" cmd
